@@ -2749,6 +2749,14 @@ impl Attribute {
                 Value::new_empty(name.location.end)
             },
         );
+        // an unquoted value is not an object binding either
+        let value = match value {
+            Some(Value::Static { value, location }) if !value.is_empty() => {
+                ps.add_warning(ParseErrorKind::InvalidAttributeValue, location.clone());
+                Some(Value::new_empty(location.start))
+            }
+            x => x,
+        };
         value.map(|value| Self {
             name,
             value: (!is_value_unspecified).then_some(value),
